@@ -115,7 +115,7 @@ def _crs_cache_body():
     claim("_make_crs_transform(self._crs, other._crs, always_xy=always_xy)" in ast.unparse(tr), "transformer_to_crs asks for exactly (self._crs, other._crs)")
 
 
-lemma("crs.cache_lifetime_invariant", ["C19"], inputs=dict(), body=_crs_cache_body, note="structural obligations checked on the AST and module objects of the tree under verification (no solver needed)")
+lemma("crs.cache_lifetime_invariant", ["C19", "C07", "C03", "C11"], inputs=dict(), body=_crs_cache_body, note="structural obligations checked on the AST and module objects of the tree under verification (no solver needed)")
 
 
 def _crs_eq_body():
